@@ -33,6 +33,11 @@ pub enum Profile {
     NonNan,
     /// finite and moderate (|v| < 1e6), arbitrary mantissa
     Moderate,
+    /// k/256 within +-4 of a per-shape base point up to +-2^23 away from the origin: small shapes far
+    /// from the origin, where a naive area formula cancels catastrophically but the edge-wise sum is exact
+    FarDyadic,
+    /// as FarDyadic but the shape spans only a few 1/256 steps: its area is far below one ulp of x*y
+    FarTiny,
 }
 
 pub fn f_dyadic() -> BoxedStrategy<F> {
@@ -118,6 +123,8 @@ pub fn f_profile(p: Profile) -> BoxedStrategy<F> {
         Profile::Small => f_small(),
         Profile::NonNan => f_nonnan(),
         Profile::Moderate => f_moderate(),
+        Profile::FarDyadic => (-1024i32..=1024).prop_map(|k| F::of(k as f64 / 256.0)).boxed(),
+        Profile::FarTiny => (-6i32..=6).prop_map(|k| F::of(k as f64 / 256.0)).boxed(),
     }
 }
 
@@ -254,6 +261,30 @@ fn ring_pts(ty: Ty, c: GenCfg, min: usize) -> BoxedStrategy<Vec<V>> {
 
 /// Input geometry for the constructors of `ty` (bbox left zero, it is not an input).
 pub fn geom(ty: Ty, c: GenCfg) -> BoxedStrategy<Geom> {
+    if c.profile != Profile::FarDyadic && c.profile != Profile::FarTiny {
+        return geom_base(ty, c);
+    }
+    // shift the whole shape by a base point far from the origin (whole numbers and 1/256 fractions)
+    let base = || prop_oneof![
+        3 => (-8_388_608i64..=8_388_608).prop_map(|k| k as f64),
+        1 => (-2_000_000_000i64..=2_000_000_000).prop_map(|k| k as f64 / 256.0),
+        1 => Just(500_000.0f64),
+        1 => Just(4_649_776.0f64),
+    ];
+    (geom_base(ty, c), base(), base())
+        .prop_map(|(mut g, bx, by)| {
+            for p in g.parts.iter_mut() {
+                for v in p.pts.iter_mut() {
+                    v[0] = F::of(v[0].v() + bx);
+                    v[1] = F::of(v[1].v() + by);
+                }
+            }
+            g
+        })
+        .boxed()
+}
+
+fn geom_base(ty: Ty, c: GenCfg) -> BoxedStrategy<Geom> {
     let mk = move |parts: Vec<Part>| Geom {
         ty,
         parts,
@@ -314,6 +345,8 @@ pub fn profile_mix() -> BoxedStrategy<Profile> {
     prop_oneof![
         3 => Just(Profile::Small),
         3 => Just(Profile::Dyadic),
+        1 => Just(Profile::FarDyadic),
+        2 => Just(Profile::FarTiny),
         3 => Just(Profile::NonNan),
         1 => Just(Profile::Moderate),
     ]
@@ -403,4 +436,71 @@ pub fn fgeom(ty: Ty, max_parts: usize, max_pts: usize) -> BoxedStrategy<Geom> {
 
 pub fn ty14() -> BoxedStrategy<Ty> {
     (0usize..14).prop_map(|i| ALL14[i]).boxed()
+}
+
+
+/// Constructor input with part count and points per part drawn from the given ranges (clamped to
+/// each family's preconditions); for the point family the ranges are ignored.
+pub fn geom_sized(ty: Ty, c: GenCfg, parts: std::ops::RangeInclusive<usize>, pts: std::ops::RangeInclusive<usize>) -> BoxedStrategy<Geom> {
+    let v = vertex(ty, c);
+    let mk = move |parts: Vec<Part>| Geom {
+        ty,
+        parts,
+        bbox: [F(0); 8],
+        m_present: ty.carries_m(),
+    };
+    let (plo, phi) = (*pts.start(), *pts.end());
+    match ty.family() {
+        Family::Null | Family::Point => geom(ty, c),
+        Family::Multipoint => {
+            // "parts" has no meaning: use parts*pts points
+            let lo = (plo.max(1) * *parts.start()).max(1);
+            let hi = (phi.max(1) * *parts.end()).max(lo);
+            vec(v, lo..=hi.min(lo + 400)).prop_map(move |p| mk(vec![Part { kind: 0, pts: p }])).boxed()
+        }
+        fam => {
+            let min_pts = if fam == Family::Polyline { 2 } else { 0 };
+            let kinds = match fam {
+                Family::Multipatch => 0i32..=5,
+                Family::Polygon => 0i32..=1,
+                _ => 0i32..=0,
+            };
+            let part = (kinds, vec(v, plo.max(min_pts)..=phi.max(min_pts).max(plo))).prop_map(|(kind, pts)| Part { kind, pts });
+            vec(part, parts)
+                .prop_map(move |mut ps| {
+                    // first ring / patch must not be empty
+                    if ps[0].pts.is_empty() {
+                        ps[0].pts.push(v4(1.0, 2.0, 3.0, 4.0));
+                    }
+                    mk(ps).canon()
+                })
+                .boxed()
+        }
+    }
+}
+
+
+/// File-level record with part count / points per part drawn from the given ranges.
+pub fn fgeom_sized(ty: Ty, parts: std::ops::RangeInclusive<usize>, pts: std::ops::RangeInclusive<usize>) -> BoxedStrategy<Geom> {
+    if ty == Ty::Null || ty.family() == Family::Point {
+        return fgeom(ty, 1, 1);
+    }
+    let xy = prop_oneof![2 => f_dyadic(), 2 => f_small(), 1 => f_anybits()].boxed();
+    let kinds = if ty == Ty::Multipatch { 0i32..=5 } else { 0i32..=0 };
+    let m_present = if ty.carries_m() { any::<bool>().boxed() } else { Just(false).boxed() };
+    let bbox = proptest::array::uniform8(f_small());
+    let np = if ty.family() == Family::Multipoint { 1..=1 } else { parts };
+    let pr = if ty.family() == Family::Multipoint { (*pts.start() * 2)..=(*pts.end() * 2).max(1) } else { pts };
+    let part = (kinds, vec(fvertex(ty, xy), pr)).prop_map(|(kind, pts)| Part { kind, pts });
+    (vec(part, np), bbox, m_present)
+        .prop_map(move |(parts, bbox, m_present)| {
+            Geom {
+                ty,
+                parts,
+                bbox,
+                m_present,
+            }
+            .canon_file()
+        })
+        .boxed()
 }
